@@ -71,7 +71,10 @@ func SetupServer(issuer string, storage Storage, logger *slog.Logger, wrapServer
 
 	handler := http.Handler(provider)
 	if wrapServer {
-		handler = op.RegisterLegacyServer(op.NewLegacyServer(provider, *op.DefaultEndpoints), op.AuthorizeCallbackHandler(provider))
+		// the provider was created with a custom authorization endpoint (see newOP): serve the same one here
+		endpoints := *op.DefaultEndpoints
+		endpoints.Authorization = provider.AuthorizationEndpoint()
+		handler = op.RegisterLegacyServer(op.NewLegacyServer(provider, endpoints), op.AuthorizeCallbackHandler(provider))
 	}
 
 	// we register the http handler of the OP on the root, so that the discovery endpoint (/.well-known/openid-configuration)
